@@ -253,6 +253,26 @@ SPECS += [
 ]
 SPECS[-1]["slice"]["result"] = ["time"]
 
+UCACHE = "Dict[Tuple[Obj,Obj],Tuple[Bool,Bool]]"
+UNITS_COMMON = dict(path="data/tools/units.py", group="Units", extra_params={"_UNIT_PAIRS_CACHE": UCACHE},
+                    mut_params=["_UNIT_PAIRS_CACHE"], props=["C17"])
+CACHE_CALL = {"lean": "cache_units", "args": [0, 1, "_UNIT_PAIRS_CACHE", "conv"],
+              "argtypes": ["Obj", "Obj", UCACHE, "Opt[Bool]"], "ret": "Tuple[Bool,Bool]", "updates": ["_UNIT_PAIRS_CACHE"]}
+
+SPECS += [
+    # ---- data/tools/units.py : the unit-pair memo (C17).  Units are numbered objects; `conv` is what pint answers for
+    #      `np.isclose((1.0 * unit1).to(unit2).magnitude, 1.0)`: None = DimensionalityError --------------------------
+    dict(lean="cache_units", qual="_cache_units", params={"unit1": "Obj", "unit2": "Obj"}, ret="Tuple[Bool,Bool]",
+         raising={"np.isclose((1.0 * unit1).to(unit2).magnitude, 1.0)": ("conv", "Opt[Bool]")},
+         **{**UNITS_COMMON, "extra_params": {"_UNIT_PAIRS_CACHE": UCACHE, "conv": "Opt[Bool]"}}),
+    dict(lean="compatible_units", qual="compatible_units", params={"unit1": "Obj", "unit2": "Obj"}, ret="Bool",
+         calls={"_get_pint_units": "id", "_cache_units": CACHE_CALL}, locals={"comp_equiv": "Opt[Tuple[Bool,Bool]]"},
+         **{**UNITS_COMMON, "extra_params": {"_UNIT_PAIRS_CACHE": UCACHE, "conv": "Opt[Bool]"}}),
+    dict(lean="equivalent_units", qual="equivalent_units", params={"unit1": "Obj", "unit2": "Obj"}, ret="Bool",
+         calls={"_get_pint_units": "id", "_cache_units": CACHE_CALL}, locals={"comp_equiv": "Opt[Tuple[Bool,Bool]]"},
+         **{**UNITS_COMMON, "extra_params": {"_UNIT_PAIRS_CACHE": UCACHE, "conv": "Opt[Bool]"}}),
+]
+
 
 def by_group():
     g = {}
